@@ -141,6 +141,9 @@ def check_arm(variant, subs, arm, payload, tracing):
     kind = O.variant_kind(variant)
     info = {"assigns": len(assigns), "oreqs": len(oreqs)}
 
+    # only writes to slots / arrays matter here; plain flag variables are C20's business
+    assigns = [a for a in assigns if a[1][0] in ("R", "idx", "slot")]
+
     def only_assign(dst_pred, what):
         c = [a for a in assigns if dst_pred(a[1])]
         if len(c) != 1 or len(assigns) != 1:
